@@ -96,6 +96,7 @@ def check(ctx):
     used_ex = set()
     ptr_checks = 0
     counts = {}
+    index_sites = set()
 
     def ok(kind, text):
         counts[kind] = counts.get(kind, 0) + 1
@@ -116,6 +117,8 @@ def check(ctx):
                 if kind in ("misaligned", "nullptr"):
                     ptr_checks += 1
                     continue
+                if kind == "bounds":
+                    index_sites.add((t["span"]["file"], t["span"]["line"]))
                 sym = sym or Sym(f)
                 res, why, ident = discharge_assert(f, sym, b, t)
                 if res:
@@ -129,6 +132,8 @@ def check(ctx):
                 c = Call(f, b, t)
                 if not PANIC_CALL.search(c.path):
                     continue
+                if c.path in ("std::ops::Index::index", "std::ops::IndexMut::index_mut"):
+                    index_sites.add((c.file, c.line))
                 sym = sym or Sym(f)
                 res, why, ident = discharge_call(P, f, sym, c)
                 if res:
@@ -149,6 +154,23 @@ def check(ctx):
             r.notes.append("stale exemption (no matching site any more): %s | %s" % k)
     r.notes.append("%d compiler-inserted pointer alignment/null checks on safe references (cannot fail in safe code) not counted" % ptr_checks)
     r.notes.append("discharged per kind: %s" % ", ".join("%s=%d" % kv for kv in sorted(counts.items())))
+    if ctx.tier == "thorough":
+        # completeness of the enumeration against an independent enumerator (clippy::string_slice / indexing_slicing): see crossref.py
+        import crossref
+        names = set()
+        for fid in reach:
+            base = re.sub(r"::\{closure#\d+\}", "", fid)
+            base = re.sub(r"^<(.+?) as .+?>::", lambda m: m.group(1).split("::")[-1] + "::", base)
+            base = re.sub(r"::<[^>]*>", "", base)
+            parts = base.split("::")
+            names.add("::".join(parts[-2:]))
+            names.add(parts[-1])
+        n_all, n_reach, gp = crossref.gaps(ctx, "panic", index_sites, names)
+        for (code, file, line, fn_) in gp:
+            r.bad(V(r.id, fn_, "enumeration-gap:%s" % code, "%s reports an index/slice site at %s:%d inside the reachable function %s, in which the PANIC rule enumerated no index site: the enumeration lost coverage" % (code, file, line, fn_), file, line))
+        r.notes.append("cross-reference: %d lint sites, %d inside reachable functions, %d gaps" % (n_all, n_reach, len(gp)))
+        if not gp:
+            r.ok("cross-reference: %d clippy string_slice/indexing_slicing sites, %d in reachable functions, all inside functions where the PANIC rule enumerated index sites" % (n_all, n_reach))
     r.require_floor(60, "panic-capable sites")
     rules.append(r)
 
